@@ -3,6 +3,7 @@ package ast
 import (
 	"bytes"
 	"io"
+	"slices"
 	"strconv"
 
 	"github.com/wundergraph/graphql-go-tools/v2/pkg/internal/unsafebytes"
@@ -134,13 +135,19 @@ func (d *Document) ArgumentsAreEqual(left, right int) bool {
 		d.ValuesAreEqual(d.ArgumentValue(left), d.ArgumentValue(right))
 }
 
+// ArgumentSetsAreEquals reports whether two argument lists hold the same arguments.
+// Arguments are unordered, so the lists are compared by name, not by position:
+// (x: 1, y: 2) equals (y: 2, x: 1).
 func (d *Document) ArgumentSetsAreEquals(left, right []int) bool {
-	if len(left) != len(right) {
-		return false
-	}
-	for i := range left {
-		leftArgument, rightArgument := left[i], right[i]
-		if !d.ArgumentsAreEqual(leftArgument, rightArgument) {
+	return len(left) == len(right) && d.argumentsAreContainedIn(left, right) && d.argumentsAreContainedIn(right, left)
+}
+
+// argumentsAreContainedIn reports whether every argument has the value of the argument of its name in other.
+func (d *Document) argumentsAreContainedIn(arguments, other []int) bool {
+	for _, argument := range arguments {
+		name := d.ArgumentNameBytes(argument)
+		i := slices.IndexFunc(other, func(ref int) bool { return bytes.Equal(d.ArgumentNameBytes(ref), name) })
+		if i == -1 || !d.ValuesAreEqual(d.ArgumentValue(argument), d.ArgumentValue(other[i])) {
 			return false
 		}
 	}
